@@ -546,7 +546,7 @@ func TestC15Pipeline(t *testing.T) {
 	}
 
 	_, steer := s.IsKnown(c15KnownSingleStage)
-	kit.SetChecks(60_000, 300_000)
+	kit.SetChecks(40_000, 300_000)
 	rapid.Check(t, func(rt *rapid.T) {
 		c, steered := genC15(rt, steer)
 		if steered {
